@@ -11,8 +11,9 @@ META = {
 }
 ASSUMPTIONS = [
     "snapshots carry distinct prices and positive amounts (OrderBook::new neither de-duplicates nor filters)",
-    "several entries for one price inside one update: any application order among equal prices is allowed "
-    "(OrderBook::new sorts with an unstable sort) - DESIGN 5.4",
+    "several entries for one price inside one level list: the last entry wins (the list is folded left to right); the code's "
+    "sort_unstable_by preserves the order of equal prices only up to 20 elements (insertion sort), so for longer lists any "
+    "application order among equal prices is allowed (OrderBook!StableUpTo; the drivers use lists of at most 7 entries)",
     "time_engine is not part of the property and is not compared",
     "manager mode: the stream interleaves L2 events addressed to a second instrument and to an unknown one; scenarios alternate "
     "between OrderBookMapSingle (only this book configured) and OrderBookMapMulti (both configured: the other book must follow "
@@ -146,7 +147,14 @@ def check(ctx):
     # (i) every (book, event) transition of the small universe; (ii) simulated behaviours, wider prices
     p_t, scn_t = ctx.tlc_gen("Gen_" + MODULE, "GenT_OrderBook.cfg" if ctx.quick else "GenT_OrderBook_thorough.cfg",
                              "transitions.ndjson", timeout=900)
-    nb, depth = (300, 30) if ctx.quick else (2000, 45)
+    # (i') every ORDER of a level list: all lists of <= 3 entries over two prices (natural order, reversed, unsorted,
+    #      repeated prices adjacent and not), snapshots of two levels in both orders - joined to the transition set
+    p_p, scn_p = ctx.tlc_gen("Gen_" + MODULE, "GenP_OrderBook.cfg", "orders.ndjson", timeout=900)
+    scn_t = scn_t + scn_p
+    with open(p_t, "a") as f:
+        for sc in scn_p:
+            f.write(json.dumps(sc) + "\n")
+    nb, depth = (240, 30) if ctx.quick else (2000, 45)
     p_b, scn_b = ctx.tlc_gen("Gen_" + MODULE, "GenB_OrderBook.cfg" if ctx.quick else "GenB_OrderBook_thorough.cfg",
                              "behaviours.ndjson", simulate=(nb, depth), timeout=1200)
     ctx.sample({"kind": "TLC transition scenario (init book, one event, every allowed resulting view)", "scenario": scn_t[len(scn_t) // 2]})
